@@ -255,6 +255,17 @@ class Target:
                 out.append(f'#define NV_LOOPVAR_{f.cname}_{k} {nm}')
             for k, b in sorted(f.printer.loop_bounds.items()):
                 out.append(f'#define NV_LOOPBOUND_{f.cname}_{k} {b}')
+        # NV_LOOPBY_<c_name>_<counter>[_<n>]: a loop contract keyed by the loop's COUNTER (n-th loop with that counter, n >= 2) instead of
+        # the loop's ordinal: it follows its loop when a maintainer reorders the loops of a function (swapped if / else arms, ...)
+        for f in present:
+            seen = {}
+            for k in range(1, f.printer.loops + 1):
+                c = f.printer.loop_counters.get(k)
+                if not c or not re.fullmatch(r'\w+', c):
+                    continue
+                seen[c] = seen.get(c, 0) + 1
+                by = f'NV_LOOPBY_{f.cname}_{c}' + ('' if seen[c] == 1 else f'_{seen[c]}')
+                out.append(f'#ifdef {by}\n#undef NV_LOOP_{f.cname}_{k}\n#define NV_LOOP_{f.cname}_{k} {by}\n#endif')
         for f in present:
             out.append(f'#ifndef NV_CONTRACT_{f.cname}\n#define NV_CONTRACT_{f.cname}\n#endif')
         for m in loops:
